@@ -9,6 +9,10 @@
 (*   Enc7951 / Dec7951   RFC 7951 rendering and unmarshalling       (C01)   *)
 (*   Notifs / ApplyNotifs gNMI notifications and their application  (C02)   *)
 (*   Prune / BuildEmpty  PruneEmptyBranches / BuildEmptyTree        (C14)   *)
+(*   PruneCF             PruneConfigFalse                           (C32)   *)
+(*   Match               GetNode with wildcard / partial keys (an extension *)
+(*                       beyond the listed properties: the query semantics  *)
+(*                       of a path whose keys may be "*")                   *)
 (***************************************************************************)
 EXTENDS DataTree, Json
 
@@ -233,7 +237,62 @@ ConfigFalseLaws ==
   /\ u.en = tree.en /\ u.oe = tree.oe
   /\ PruneCF(u) = u
 
+----------------------------------------------------------------------------
+(* Queries: a path whose key steps may be wildcards.  For a single-key list  *)
+(* the wildcard step is "*"; for the two-key list each part may be "*"       *)
+(* ("K1.*", "*.K2", "*.*").  Match(t, q) is the set of data paths of t that  *)
+(* q selects: the query semantics of GetNode with GetHandleWildcards (and,  *)
+(* with the "*" parts left out of the path, GetPartialKeyMatch).            *)
+
+WildAtoms == {"*"}
+MWildAtoms == {"K1.*", "K2.*", "*.K1", "*.K2", "*.*"}
+WildSteps == WildAtoms \cup MWildAtoms
+
+\* does the concrete key step k match the (possibly wild) step w of list lsp
+StepMatches(lsp, w, k) ==
+  IF lsp = <<"m">>
+  THEN LET wp == IF w \in MKeyAtoms THEN MKeyParts[w]
+                 ELSE CASE w = "K1.*" -> <<"K1", "*">> [] w = "K2.*" -> <<"K2", "*">>
+                        [] w = "*.K1" -> <<"*", "K1">> [] w = "*.K2" -> <<"*", "K2">> [] OTHER -> <<"*", "*">>
+       IN \A i \in 1..2 : wp[i] = "*" \/ wp[i] = MKeyParts[k][i]
+  ELSE w = "*" \/ w = k
+
+\* the nodes of a tree (what GetNode can return): leaves, leaf-lists, containers, entries
+NodesOf(t) == (DOMAIN t.lv) \cup (DOMAIN t.ll) \cup t.ct \cup {e \in EntryDP : HasEntry(t, e)}
+
+\* queries: every node path of the slice with at least one key step made wild
+WildOf(lsp) == IF lsp = <<"m">> THEN MWildAtoms ELSE WildAtoms
+RECURSIVE Wilden(_, _)
+Wilden(p, i) ==      \* all ways of replacing key steps of p from position i on
+  IF i > Len(p) THEN {p}
+  ELSE IF p[i] \in KeySteps
+       THEN LET lsp == SchemaOf(SubSeq(p, 1, i - 1)) IN
+            UNION {Wilden([p EXCEPT ![i] = w], i + 1) : w \in {p[i]} \cup WildOf(lsp)}
+       ELSE Wilden(p, i + 1)
+AllNodeDP == LeafDP \cup LeafListDP \cup ContDP \cup EntryDP
+Queries == UNION {Wilden(p, 1) : p \in AllNodeDP} \ AllNodeDP
+
+QMatches(q, p) ==
+  /\ Len(q) = Len(p)
+  /\ \A i \in 1..Len(q) :
+        IF p[i] \in KeySteps THEN StepMatches(SchemaOf(SubSeq(p, 1, i - 1)), q[i], p[i]) ELSE q[i] = p[i]
+
+Match(t, q) == {p \in NodesOf(t) : QMatches(q, p)}
+
+\* laws of the query semantics itself
+QueryLaws ==
+  /\ \A q \in Queries : Match(tree, q) \subseteq NodesOf(tree)
+  \* a wildcard selects exactly what the concrete queries select together
+  /\ \A q \in Queries : Match(tree, q) = UNION {IF p \in NodesOf(tree) THEN {p} ELSE {} : p \in {x \in AllNodeDP : QMatches(q, x)}}
+  \* widening a query never loses a match
+  /\ \A q1, q2 \in Queries : (\A p \in AllNodeDP : QMatches(q1, p) => QMatches(q2, p)) => Match(tree, q1) \subseteq Match(tree, q2)
+
+QueryJson == SetToSeq({[q |-> q, m |-> SetToSeq(Match(tree, q))] : q \in Queries})
+
 EmitTree == PrintT("TREE " \o ToJson([t |-> TreeJson(tree), pruned |-> TreeJson(Prune(tree)),
                                       built |-> TreeJson(BuildEmpty(tree)), pcf |-> TreeJson(PruneCF(tree))]))
+
+\* emission with the queries (used by the GetNode-query extension only: it is large)
+EmitTreeQ == PrintT("TREE " \o ToJson([t |-> TreeJson(tree), q |-> QueryJson]))
 
 =============================================================================
